@@ -331,6 +331,20 @@ func (e *EvalEnv) ident(name string) (Val, error) {
 					return val, nil
 				}
 			}
+			// several definitions merged by exactly one executed phi: the phi is the variable's current value
+			if !same {
+				var found ssa.Value
+				n := 0
+				for v := range e.Fr.Env {
+					if ph, ok := v.(*ssa.Phi); ok && ph.Comment == name && ph.Parent() == e.Fr.Fn {
+						found = v
+						n++
+					}
+				}
+				if n == 1 {
+					return e.Fr.Env[found], nil
+				}
+			}
 			// most recent value
 			last := vals[len(vals)-1]
 			if val, ok := e.Fr.Env[last]; ok {
@@ -511,6 +525,24 @@ func (e *EvalEnv) binary(x *ast.BinaryExpr) (Val, error) {
 				eq = Not(eq)
 			}
 			return TV{T: eq, Typ: types.Typ[types.Bool]}, nil
+		}
+	}
+	// interface compared with a typed constant / integer value: box the value (same representation as MakeInterface)
+	if x.Op == token.EQL || x.Op == token.NEQ {
+		av, aok := a.(TV)
+		bv, bok := b.(TV)
+		if aok && bok && (av.T.Sort == SIface) != (bv.T.Sort == SIface) {
+			if bv.T.Sort == SIface {
+				av, bv = bv, av
+			}
+			if w := bv.T.Sort.BVWidth(); w > 0 && w <= 64 && bv.Typ != nil {
+				boxed := App(SIface, "mk-iface", BVInt(int64(e.X.C.TypeID(bv.Typ)), 32), ZeroExt(bv.T, 64))
+				eq := Eq(av.T, boxed)
+				if x.Op == token.NEQ {
+					eq = Not(eq)
+				}
+				return TV{T: eq, Typ: types.Typ[types.Bool]}, nil
+			}
 		}
 	}
 	ta, tb, err := e.coerce(a, b)
@@ -1023,6 +1055,56 @@ func (e *EvalEnv) call(x *ast.CallExpr) (Val, error) {
 		}
 		e.X.C.usesQuant = true
 		return TV{T: Raw(SBool, q), Typ: types.Typ[types.Bool]}, nil
+	case "allkeys":
+		// allkeys(k, m, body): body holds for every key k present in map m (k may be used as m[k], has(m2, k), ...)
+		if len(x.Args) != 3 {
+			return nil, fmt.Errorf("allkeys(k, m, body)")
+		}
+		vid, ok := x.Args[0].(*ast.Ident)
+		if !ok {
+			return nil, fmt.Errorf("allkeys(k, m, body): identifier expected")
+		}
+		mv, err := e.Eval(x.Args[1])
+		if err != nil {
+			return nil, err
+		}
+		m, err := e.asTV(mv)
+		if err != nil {
+			return nil, err
+		}
+		mt, ok := m.Typ.Underlying().(*types.Map)
+		if !ok {
+			return nil, fmt.Errorf("allkeys over %s", m.Typ)
+		}
+		mr, err := e.X.mapRegions(m.Typ)
+		if err != nil {
+			return nil, err
+		}
+		e.X.C.nameCtr++
+		bn := fmt.Sprintf("%s!k%d", sanitize(vid.Name), e.X.C.nameCtr)
+		saved, had := e.Vars[vid.Name]
+		e.Vars[vid.Name] = TV{T: Raw(mr.KS, bn), Typ: mt.Key()}
+		e.X.C.noName++
+		_, present, err1 := e.X.mapGet(e.state(), m.Typ, m.T, Raw(mr.KS, bn))
+		var body Term
+		var err2 error
+		if err1 == nil {
+			body, err2 = e.Bool(x.Args[2])
+		}
+		e.X.C.noName--
+		if had {
+			e.Vars[vid.Name] = saved
+		} else {
+			delete(e.Vars, vid.Name)
+		}
+		if err1 != nil {
+			return nil, err1
+		}
+		if err2 != nil {
+			return nil, err2
+		}
+		e.X.C.usesQuant = true
+		return TV{T: Raw(SBool, fmt.Sprintf("(forall ((%s %s)) (=> %s %s))", bn, mr.KS, present.S, body.S)), Typ: types.Typ[types.Bool]}, nil
 	case "all", "any":
 		// all(x, uint64, body): universally quantified ghost integer of the given width
 		if len(x.Args) != 3 {
@@ -1224,6 +1306,26 @@ func (e *EvalEnv) call(x *ast.CallExpr) (Val, error) {
 		}
 		e.LastFrame, e.LastFrameRegions = conj, conjRegions
 		return TV{T: And(conj...), Typ: types.Typ[types.Bool]}, nil
+	case "isbytes", "asbytes", "iserror":
+		// dynamic type tests on an interface value: isbytes(x) <=> x holds a []byte; asbytes(x) is that slice;
+		// iserror(x) <=> x is non-nil and its dynamic type implements error
+		v, err := e.Eval(x.Args[0])
+		if err != nil {
+			return nil, err
+		}
+		iv, ok := v.(TV)
+		if !ok || iv.T.Sort != SIface {
+			return nil, fmt.Errorf("%s() needs an interface value", id.Name)
+		}
+		bt := types.NewSlice(types.Typ[types.Uint8])
+		switch id.Name {
+		case "isbytes":
+			return TV{T: Eq(App(SRef, "if-typ", iv.T), BVInt(int64(e.X.C.TypeID(bt)), 32)), Typ: types.Typ[types.Bool]}, nil
+		case "iserror":
+			et := types.Universe.Lookup("error").Type()
+			return TV{T: And(Not(Eq(App(SRef, "if-typ", iv.T), BVInt(0, 32))), e.X.C.Implements(App(SRef, "if-typ", iv.T), et)), Typ: types.Typ[types.Bool]}, nil
+		}
+		return e.X.unboxIface(e.state(), iv.T, bt)
 	case "allocated":
 		// allocated(s): the slice/pointer/map refers to an object that already exists in the current state
 		// (so a later allocation cannot alias it)
